@@ -302,8 +302,9 @@ class Checker:
                 raise Undecided('degree typing: method %s (line %d)' % (text, e.lineno))
         if name is None: raise Undecided('degree typing: call form at line %d' % e.lineno)
         if name in self.c.get('callees', {}):
-            for a in args: self.ev(a)
-            return self.c['callees'][name]
+            ds_ = [self.ev(a) for a in args]
+            r = self.c['callees'][name]
+            return r(ds_) if callable(r) else r
         ds = [self.ev(a) for a in args]
         kd = {k: self.ev(v) for k, v in kw.items()}
         if name in PASS1:
@@ -339,6 +340,10 @@ class Checker:
         if name in ('allclose', 'isclose', 'array_equal'):
             a, b = ds[0], ds[1]
             if join(a, b) is None: self.fail(e, '%s compares rate degree %s with %s' % (name, show(a), show(b)))
+            # "is it zero?" with the library's built-in absolute tolerance (1e-8) is an absolute statement about a quantity that scales
+            lit0 = any(isinstance(x, ast.Constant) and not isinstance(x.value, bool) and x.value == 0 for x in e.args[:2])
+            if name != 'array_equal' and lit0 and isinstance(join(a, b), Fraction) and join(a, b) != 0 and 'atol' not in kd:
+                self.fail(e, '%s(..., 0) tests a value of rate degree %s against the built-in absolute tolerance: the outcome depends on the overall rate scale' % (name, show(join(a, b))))
             for tolname in ('atol',):
                 if tolname in kd and kd[tolname] != ZERO and join(kd[tolname], join(a, b) if join(a, b) is not None else a) is None and join(a, b) not in (ZERO,):
                     self.fail(e, '%s: absolute tolerance of degree %s on values of degree %s' % (name, show(kd[tolname]), show(join(a, b))))
@@ -452,6 +457,7 @@ class Checker:
             return
         if isinstance(st, (ast.Pass, ast.Continue, ast.Break, ast.Import, ast.ImportFrom)): return
         if isinstance(st, ast.FunctionDef):
+            if st.name in self.c.get('callees', {}): return       # a local helper whose degree rule the contract states
             raise Undecided('degree typing: nested function %s (line %d)' % (st.name, st.lineno))
         if isinstance(st, ast.Try):
             self.run_block(st.body)
